@@ -70,6 +70,16 @@ def gen(tier, seed):
             if method == "GET" and rng.random() < 0.5:
                 o = {k: v for k, v in o.items() if rng.random() < 0.8}
             reqs.append(vis_request(rng.choice(s_ok), opts=o, method=method))
+    # characters that are special in URLs and forms inside the statement, the original statement and the ID: a plus sign,
+    # percent sequences, ampersand, equals, hash, semicolon, non-ASCII - through URL parameters and through the form
+    for st, sid in [("A(Member States) D(must) I(report) Bdir(costs + benefits) Cex(within 30+ days)", "7+1"),
+                    ("A(actor 100%) I(pay 50%25 of a%20b) Bdir(x&y=z) Cex(#1; then)", "id%2B1"),
+                    ("A(b\u00fcrger \u20ac5 + tax) I(pay) Cac(if a=b&c)", "7 1"),
+                    ("A(x) I(y+z) Bdir(%41%zz) Cac(%)", "a&b=c")]:
+        st = st.encode().decode("unicode_escape")
+        for method in ("GET", "POST"):
+            reqs.append(tab_request(st, sid=sid, orig=st, opts={"igExtended": True, "includeHeaders": True}, fmt=rng.choice([GS, CSV]), po="all", method=method))
+            reqs.append(vis_request(st, sid=sid, opts={"annotations": True}, method=method))
     # URL spellings of booleans and junk values
     for v in ["t", "true", "1", "f", "false", "0", "on", "yes", "TRUE", ""]:
         reqs.append(vis_request(s_ok[0], method="GET", extra={"binaryTree": v, "dov": v, "propertyTree": v}))
